@@ -41,8 +41,6 @@ def gen_case(r: apigen.Rng):
         opts += r.sample(["python-gapic-namespace=Acme", "python-gapic-name=libra", "warehouse-package-name=acme-libra"], r.randint(1, 3))
     if not ads and r.maybe(0.1):
         opts.append("lazy-import")
-    if ads and "second_file" in feats:
-        feats = [x for x in feats if x != "second_file"]
     return {"features": feats, "opts": opts, "mixins": sorted(mixins), "ads": ads, "rest_async": rest_async}
 
 
@@ -159,7 +157,7 @@ def build_files(case):
         s2.method("GetBook", g, book, http=("get", "/v1/catalog/{name=shelves/*/books/*}"), sigs=["name"])
     if "tree_map" in F or "tree_map_first" in F:
         # a tree resource: map<string, Node> back to the message.  With the map as FIRST field `Field.mock_value` of the flattened
-        # `node` never ends (finding generation:RecursionError@schema/wrappers.py:map)
+        # `node` never ends (finding generation:RecursionError@mock_value:map-value-cycle-in-flattened-field)
         node = f.msg("Node").resource("lib.example.com/Node", "nodes/{node}")
         if "tree_map_first" in F:
             node.map_field("children", "string", "message", vtype_name=node); node.field("name")
@@ -272,7 +270,11 @@ def one(case):
         req = apigen.request(files, ",".join(opts))
         res, err = genrun.try_generate(req)
         if err:
-            return {"stage": "generation", "err": err}
+            out = {"stage": "generation", "err": err}
+            if err[0].startswith("RecursionError@"):
+                hits = map_value_cycle_flattened(files)
+                out["mv_cycle"] = probe_flattened_mock_value(req, hits) if hits else []
+            return out
         root = genrun.materialise(res)
         try:
             rc, total, bad = run_pytest(root)
@@ -288,24 +290,119 @@ def norm_test(name):
     return re.sub(r"\[.*$", "", name or "")
 
 
+def _all_msgs(files):
+    out = {}
+    def walk(prefix, m):
+        full = f"{prefix}.{m.name}"
+        out["." + full] = m
+        for n in m.nested_type:
+            walk(full, n)
+    for f in files:
+        pb = f.pb if hasattr(f, "pb") else f
+        for m in pb.message_type:
+            walk(pb.package, m)
+    return out
+
+
+def _mock_value_diverges(msgs, type_name, in_progress=frozenset()):
+    """TRIGGER of finding `generation:RecursionError@mock_value:map-value-cycle-in-flattened-field`, decided from the descriptors alone:
+    does `Field.mock_value` of a field of message type `type_name` re-enter the `mock_value` of a map entry's value field that is still
+    being computed?  It follows the code: walk the chain of FIRST fields (cut where a message repeats); a map field ends the chain and
+    asks for the fresh `mock_value` of its entry's value field."""
+    seen, cur = set(), type_name
+    while cur in msgs and cur not in seen:
+        seen.add(cur)
+        m = msgs[cur]
+        if not m.field:
+            return False
+        f = m.field[0]
+        if f.type != 11:
+            return False
+        entry = msgs.get(f.type_name)
+        if entry is not None and entry.options.map_entry and f.label == 3:
+            v = [x for x in entry.field if x.name == "value"]
+            if not v or v[0].type != 11:
+                return False
+            if f.type_name in in_progress:
+                return True
+            return _mock_value_diverges(msgs, v[0].type_name, in_progress | {f.type_name})
+        cur = f.type_name
+    return False
+
+
+def map_value_cycle_flattened(files):
+    """[(method, signature entry)] whose flattened field has the trigger shape (message-typed, mock_value re-enters a map value)"""
+    from google.api import client_pb2
+    msgs, hits = _all_msgs(files), []
+    for f in files:
+        pb = f.pb if hasattr(f, "pb") else f
+        for svc in pb.service:
+            for meth in svc.method:
+                for sig in meth.options.Extensions[client_pb2.method_signature]:
+                    for ent in filter(None, sig.split(",")):
+                        cur, fld = msgs.get(meth.input_type), None
+                        for seg in ent.strip().split("."):
+                            fld = next((x for x in cur.field if x.name == seg), None) if cur is not None else None
+                            cur = msgs.get(fld.type_name) if fld is not None and fld.type == 11 else None
+                        if fld is not None and fld.type == 11 and _mock_value_diverges(msgs, fld.type_name):
+                            hits.append((meth.name, ent.strip()))
+    return hits
+
+
+def probe_flattened_mock_value(req, hits):
+    """SITE of the same finding, observed directly: on the loaded schema `.mock_value` of exactly those flattened fields raises
+    RecursionError (while their `mock_value_original_type` has a value)"""
+    api, _ = genrun.build_api(req)
+    confirmed = []
+    for svc in api.services.values():
+        for meth in svc.methods.values():
+            for name, ent in hits:
+                if meth.name != name:
+                    continue
+                fl = meth.input.get_field(*ent.split("."))
+                try:
+                    fl.mock_value
+                except RecursionError:
+                    fl.mock_value_original_type
+                    confirmed.append(f"{name}.{ent}")
+    return sorted(set(confirmed))
+
+
+ASYNC_REST_NAMEERROR = re.compile(r"^NameError: name '\w+AsyncClient' is not defined")
+
+
 def judge(ctx, case, out):
     payload = {"case": case}
     if out["stage"] == "generation":
         sig = out["err"][0]
-        if sig.startswith("RecursionError@schema/wrappers.py"):
-            sig = "RecursionError@schema/wrappers.py"      # the innermost frame of a recursion overflow is arbitrary: keep file level
+        # known finding only when the INPUT has the recorded trigger (a flattened message field whose `mock_value` re-enters the
+        # `mock_value` of a map value: decided from the descriptors), the SITE is the recorded one (`.mock_value` of that very field
+        # raises RecursionError on the loaded schema) and the symptom is a RecursionError inside schema/wrappers.py (the innermost
+        # frame of a recursion overflow is arbitrary).  Any other RecursionError keeps its own (unlisted) key.
+        if sig.startswith("RecursionError@schema/wrappers.py") and out.get("mv_cycle"):
+            sig = "RecursionError@mock_value:map-value-cycle-in-flattened-field"
+            payload = {**payload, "fields": out["mv_cycle"]}
         ctx.fail("generation:" + sig, f"generator raised {out['err'][0]}: {out['err'][1]}", payload)
         return
     ctx.count("tests_per_library", out["total"] // 50 * 50)
     ctx.notes["emitted_tests_run"] = ctx.notes.get("emitted_tests_run", 0) + out["total"]
     if out["bad"] or out["rc"] != 0:
-        names = sorted(set(norm_test(n) for n, _ in out["bad"]))
-        key = "emitted-tests-fail:" + (names[0] if names else "collection")
-        if case.get("rest_async") and not any(o.startswith("transport=") and "grpc" in o for o in case["opts"]) \
-                and names and all("rest_asyncio" in n or "async" in n for n in names):
-            key = "emitted-tests-fail:async-rest-without-grpc"      # findings/C13.json (same root cause as the C01 finding)
-        ctx.fail(key,
-                 f"{len(out['bad'])} of {out['total']} emitted tests fail, e.g. {out['bad'][:2]}", {**payload, "failing": names[:20]})
+        bad = list(out["bad"])
+        # known finding `async-rest-without-grpc`: trigger = the async-REST experiment with a transport set that has rest and no grpc
+        # (default templates); symptom = a `*_rest_asyncio*` test failing with NameError on `<Service>AsyncClient`.  Only THOSE tests
+        # are put under the known key; every other failing test of such a library is reported under its own key.
+        trig = (case.get("rest_async") and not case.get("ads")
+                and any(o.startswith("transport=") and "rest" in o and "grpc" not in o for o in case["opts"]))
+        known = [(n, m) for n, m in bad if trig and "rest_asyncio" in (n or "") and ASYNC_REST_NAMEERROR.match(m or "")]
+        if known:
+            ctx.fail("emitted-tests-fail:async-rest-without-grpc",
+                     f"{len(known)} of {out['total']} emitted tests fail with NameError on the AsyncClient, e.g. {known[:2]}",
+                     {**payload, "failing": sorted(set(norm_test(n) for n, _ in known))[:20]})
+            bad = [x for x in bad if x not in known]
+        if bad or (out["rc"] != 0 and not known):
+            names = sorted(set(norm_test(n) for n, _ in bad))
+            ctx.fail("emitted-tests-fail:" + (names[0] if names else "collection"),
+                     f"{len(bad)} of {out['total']} emitted tests fail, e.g. {bad[:2]}", {**payload, "failing": names[:20]})
 
 
 def t2_samples(ctx, r):
